@@ -78,10 +78,13 @@ def jointUniqueErrors (S : Schema) (D : Frame) : List Err :=
 def presenceErrors (S : Schema) (D : Frame) : List Err :=
   (absentNames S D).map (fun n => { reason := .columnNotInDataframe, ctx := .frame, label := some n })
 
+/-- the core checks proper (everything but the strict / ordered test, which a parser performs) -/
+def coreErrors (S : Schema) (D : Frame) : List Err :=
+  presenceErrors S D ++ jointUniqueErrors S D ++ (S.columns.map (fun c => columnErrors c D)).flatten
+
 /-- the lazy error list of the polars `DataFrameSchema.validate`, in collection order -/
 def frameErrors (S : Schema) (D : Frame) : List Err :=
-  strictOrderedErrors S D ++ presenceErrors S D ++ jointUniqueErrors S D
-    ++ (S.columns.map (fun c => columnErrors c D)).flatten
+  strictOrderedErrors S D ++ coreErrors S D
 
 def accepts (S : Schema) (D : Frame) : Bool := (frameErrors S D).isEmpty
 
